@@ -298,7 +298,7 @@ where
                     }
                 } else if otherlen < len {
                     //check if we need to modify the vector in place or if we can just copy the other
-                    if self.contains_subset(other) {
+                    if self.sorted == other.sorted && self.contains_subset(other) {
                         self.array = other.array.clone(); //may be cheap if borrowed, expensive if owned
                         return;
                     }
@@ -315,13 +315,14 @@ where
         self.array.to_mut().retain(|x| {
             if self.sorted && other.sorted {
                 //optimisation if both are sorted
+                //(the index returned is relative to the slice)
                 match other.array[offset..].binary_search(x) {
                     Ok(index) => {
-                        offset = index + 1;
+                        offset += index + 1;
                         true
                     }
                     Err(index) => {
-                        offset = index + 1;
+                        offset += index;
                         false
                     }
                 }
